@@ -53,6 +53,7 @@ def dispatch (j : Json) : Except String Json := do
   | "table" => LianVerif.Drv.Table.handle j
   | "tablealias" => LianVerif.Drv.Table.handleAlias j
   | "blockview" => LianVerif.Drv.BlockView.handle j
+  | "blockworld" => LianVerif.Drv.BlockWorld.handle j
   | "workspace" => LianVerif.Drv.Workspace.handle j
   | "entrypoints" => LianVerif.Drv.EntryPoints.handle j
   | "girexec" => LianVerif.Drv.GirExec.handle j
